@@ -52,6 +52,7 @@ VARIANTS = {
     "nostd-sse41": (["--release", "--no-default-features"], "release", "-C target-feature=+ssse3,+sse4.1"),
     "nostd-avx": (["--release", "--no-default-features"], "release", "-C target-feature=+ssse3,+sse4.1,+avx"),
     "nostd-avx2": (["--release", "--no-default-features"], "release", "-C target-feature=+ssse3,+sse4.1,+avx,+avx2"),
+    "nostd-aes": (["--release", "--no-default-features"], "release", "-C target-feature=+ssse3,+sse4.1,+aes"),
 }
 
 
@@ -107,7 +108,10 @@ def run_tlc(module, cfg=None, env=None, workers=4, timeout=1800, extra=None, xmx
     cmd = ["timeout", str(timeout), "tlc", "-workers", str(workers), "-metadir", meta, "-cleanup",
            "-noGenerateSpecTE", "-config", cfg] + (extra or []) + [module + ".tla"]
     t0 = time.time()
-    p = sh(cmd, cwd=SPEC, env=_tlc_env(env, xmx=xmx), check=False)
+    tenv = _tlc_env(env, xmx=xmx)
+    if "/" in module:      # generated module outside spec/: resolve EXTENDS through the library path
+        tenv["JAVA_TOOL_OPTIONS"] += " -DTLA-Library=" + SPEC
+    p = sh(cmd, cwd=SPEC, env=tenv, check=False)
     shutil.rmtree(meta, ignore_errors=True)
     out = p.stdout
     r = {"out": out, "rc": p.returncode, "wall": time.time() - t0, "generated": 0, "distinct": 0, "depth": 0}
